@@ -54,3 +54,377 @@ c23_harness!(c23_first_zeros_aligned_o3, 3);
 c23_harness!(c23_first_zeros_aligned_o4, 4);
 c23_harness!(c23_first_zeros_aligned_o5, 5);
 c23_harness!(c23_first_zeros_aligned_o6, 6);
+
+// ---------------------------------------------------------------------------------------------
+// L1a: Bitfield (one huge frame = ROWS rows of 64 bits). Sequential contracts.
+// Abstract view of a bitfield: the array of its rows; bit = 1 means allocated.
+// ---------------------------------------------------------------------------------------------
+pub(crate) type Rows = [u64; ROWS];
+
+pub(crate) fn any_bitfield() -> Bitfield {
+    let r: Rows = kani::any();
+    bitfield_from(r)
+}
+pub(crate) fn bitfield_from(r: Rows) -> Bitfield {
+    let b = Bitfield::default();
+    let mut i = 0;
+    while i < ROWS {
+        b.data[i].store(r[i]);
+        i += 1;
+    }
+    b
+}
+pub(crate) fn set_row_raw(b: &Bitfield, r: usize, v: u64) {
+    b.data[r].store(v);
+}
+pub(crate) fn rows_of(b: &Bitfield) -> Rows {
+    let mut r = [0u64; ROWS];
+    let mut i = 0;
+    while i < ROWS {
+        r[i] = b.data[i].load();
+        i += 1;
+    }
+    r
+}
+/// Spec: an aligned block of 2^order bits inside one bitfield, as (first row, number of rows, mask
+/// inside each of those rows). Computed once so that the symbolic shift is not repeated per row.
+#[derive(Clone, Copy)]
+pub(crate) struct Blk {
+    pub r0: usize,
+    pub nrows: usize,
+    pub mask: u64,
+}
+pub(crate) fn blk(bit: usize, order: usize) -> Blk {
+    let n = 1usize << order;
+    let bit = bit % Bitfield::LEN;
+    if n >= 64 {
+        Blk { r0: bit / 64, nrows: n / 64, mask: u64::MAX }
+    } else {
+        Blk { r0: bit / 64, nrows: 1, mask: row_mask(order, bit % 64) }
+    }
+}
+impl Blk {
+    #[inline(always)]
+    pub fn mask_in_row(&self, r: usize) -> u64 {
+        if r >= self.r0 && r < self.r0 + self.nrows { self.mask } else { 0 }
+    }
+}
+/// Spec: the part of the aligned block that lies in row `r`, as a mask.
+pub(crate) fn block_mask_in_row(bit: usize, order: usize, r: usize) -> u64 {
+    blk(bit, order).mask_in_row(r)
+}
+/// Spec: every bit of the block equals `val` in `rows`.
+pub(crate) fn blk_all(rows: &Rows, b: &Blk, val: bool) -> bool {
+    let mut ok = true;
+    let mut r = 0;
+    while r < ROWS {
+        let m = b.mask_in_row(r);
+        let want = if val { m } else { 0 };
+        if rows[r] & m != want {
+            ok = false;
+        }
+        r += 1;
+    }
+    ok
+}
+pub(crate) fn block_all(rows: &Rows, bit: usize, order: usize, val: bool) -> bool {
+    blk_all(rows, &blk(bit, order), val)
+}
+/// Spec: `new` is `old` with exactly the block's bits set to `val`; every other bit unchanged.
+pub(crate) fn rows_with_blk(old: &Rows, new: &Rows, b: &Blk, val: bool) -> bool {
+    let mut ok = true;
+    let mut r = 0;
+    while r < ROWS {
+        let m = b.mask_in_row(r);
+        let want = if val { old[r] | m } else { old[r] & !m };
+        if new[r] != want {
+            ok = false;
+        }
+        r += 1;
+    }
+    ok
+}
+pub(crate) fn rows_with_block(old: &Rows, new: &Rows, bit: usize, order: usize, val: bool) -> bool {
+    rows_with_blk(old, new, &blk(bit, order), val)
+}
+pub(crate) fn rows_eq(a: &Rows, b: &Rows) -> bool {
+    let mut ok = true;
+    let mut r = 0;
+    while r < ROWS {
+        if a[r] != b[r] {
+            ok = false;
+        }
+        r += 1;
+    }
+    ok
+}
+pub(crate) fn rows_zeros(a: &Rows) -> usize {
+    let mut z = 0usize;
+    let mut r = 0;
+    while r < ROWS {
+        z += a[r].count_zeros() as usize;
+        r += 1;
+    }
+    z
+}
+
+/// Contract of `Bitfield::toggle(i, order, expected)` (sequential):
+///   pre : i aligned to order, order <= Bitfield::ORDER
+///   post: Ok  <=> every bit of the block equalled `expected`;
+///         Ok  => exactly the block's bits are flipped, nothing else changes;
+///         Err => nothing changes.
+fn check_toggle<const ORDER: usize>() {
+    let old: Rows = kani::any();
+    let b = bitfield_from(old);
+    let i: usize = kani::any();
+    kani::assume(i % (1usize << ORDER) == 0 && i < (1usize << 40));
+    let expected: bool = kani::any();
+    let r = b.toggle(FrameId(i), ORDER, expected);
+    let new = rows_of(&b);
+    vcover!(r.is_ok(), "toggle ok");
+    vcover!(r.is_err(), "toggle err");
+    clause!(r.is_ok() == block_all(&old, i, ORDER, expected), "toggle: Ok iff every bit of the block had the expected value");
+    if r.is_ok() {
+        clause!(rows_with_block(&old, &new, i, ORDER, !expected), "toggle: Ok flips exactly the block, every other bit unchanged");
+    } else {
+        clause!(rows_eq(&old, &new), "toggle: Err leaves the bitfield unchanged");
+    }
+}
+macro_rules! toggle_harness {
+    ($name:ident, $o:expr) => {
+        #[kani::proof]
+        #[kani::unwind(10)]
+        fn $name() {
+            check_toggle::<$o>();
+        }
+    };
+}
+toggle_harness!(l1a_toggle_o0, 0);
+toggle_harness!(l1a_toggle_o1, 1);
+toggle_harness!(l1a_toggle_o2, 2);
+toggle_harness!(l1a_toggle_o3, 3);
+toggle_harness!(l1a_toggle_o4, 4);
+toggle_harness!(l1a_toggle_o5, 5);
+toggle_harness!(l1a_toggle_o6, 6);
+toggle_harness!(l1a_toggle_o7, 7);
+toggle_harness!(l1a_toggle_o8, 8);
+toggle_harness!(l1a_toggle_o9, 9);
+
+/// Contract of `Bitfield::set_first_zeros(start_row, order)` (sequential), C12:
+///   post: Err <=> no aligned all-zero block of 2^order bits exists (universally quantified witness p);
+///         Ok(off) => off aligned and inside the bitfield, the block was all zero, now all one,
+///                    every other bit unchanged;  Err => nothing changes.
+fn check_set_first_zeros<const ORDER: usize>() {
+    let old: Rows = kani::any();
+    let b = bitfield_from(old);
+    let start: usize = kani::any();
+    kani::assume(start < (1usize << 40));
+    let p: usize = kani::any();
+    kani::assume(p < Bitfield::LEN && p % (1usize << ORDER) == 0);
+    let r = b.set_first_zeros(RowId(start), ORDER);
+    let new = rows_of(&b);
+    vcover!(r.is_ok(), "search ok");
+    vcover!(r.is_err(), "search err");
+    match r {
+        Ok(off) => {
+            clause!(off.0 < Bitfield::LEN && off.0 % (1usize << ORDER) == 0, "C12: found block aligned and inside the bitfield");
+            clause!(block_all(&old, off.0, ORDER, false), "C12: found block was entirely free");
+            clause!(rows_with_block(&old, &new, off.0, ORDER, true), "C12: success marks exactly that block");
+        }
+        Err(_) => {
+            clause!(!block_all(&old, p, ORDER, false), "C12: search fails although an aligned free block exists");
+            clause!(rows_eq(&old, &new), "C12: failed search leaves the bitfield unchanged");
+        }
+    }
+}
+macro_rules! sfz_harness {
+    ($name:ident, $o:expr) => {
+        #[kani::proof]
+        #[kani::unwind(10)]
+        fn $name() {
+            check_set_first_zeros::<$o>();
+        }
+    };
+}
+sfz_harness!(l1a_set_first_zeros_o0, 0);
+sfz_harness!(l1a_set_first_zeros_o1, 1);
+sfz_harness!(l1a_set_first_zeros_o2, 2);
+sfz_harness!(l1a_set_first_zeros_o3, 3);
+sfz_harness!(l1a_set_first_zeros_o4, 4);
+sfz_harness!(l1a_set_first_zeros_o5, 5);
+sfz_harness!(l1a_set_first_zeros_o6, 6);
+sfz_harness!(l1a_set_first_zeros_o7, 7);
+sfz_harness!(l1a_set_first_zeros_o8, 8);
+sfz_harness!(l1a_set_first_zeros_o9, 9);
+
+/// `is_zero(i, order)` <=> the block is entirely free.
+fn check_is_zero<const ORDER: usize>() {
+    let old: Rows = kani::any();
+    let b = bitfield_from(old);
+    let i: usize = kani::any();
+    kani::assume(i % (1usize << ORDER) == 0 && i < (1usize << 40));
+    let r = b.is_zero(FrameId(i), ORDER);
+    clause!(r == block_all(&old, i, ORDER, false), "is_zero: true iff every bit of the block is zero");
+    clause!(rows_eq(&old, &rows_of(&b)), "is_zero: read-only");
+}
+macro_rules! is_zero_harness {
+    ($name:ident, $o:expr) => {
+        #[kani::proof]
+        #[kani::unwind(10)]
+        fn $name() {
+            check_is_zero::<$o>();
+        }
+    };
+}
+is_zero_harness!(l1a_is_zero_o0, 0);
+is_zero_harness!(l1a_is_zero_o3, 3);
+is_zero_harness!(l1a_is_zero_o6, 6);
+is_zero_harness!(l1a_is_zero_o7, 7);
+is_zero_harness!(l1a_is_zero_o9, 9);
+
+/// `set(range, v)`: exactly the bits of the range take value v (range inside one bitfield).
+#[kani::proof]
+#[kani::unwind(10)]
+fn l1a_set_range() {
+    let old: Rows = kani::any();
+    let b = bitfield_from(old);
+    let s: usize = kani::any();
+    let e: usize = kani::any();
+    // pre (the code asserts it): the range lies inside one bitfield
+    kani::assume(s <= e && e <= Bitfield::LEN && s < Bitfield::LEN);
+    let v: bool = kani::any();
+    let bit: usize = kani::any();
+    kani::assume(bit < Bitfield::LEN);
+    b.set(FrameId(s)..FrameId(e), v);
+    let new = rows_of(&b);
+    let was = (old[bit / 64] >> (bit % 64)) & 1 == 1;
+    let is = (new[bit / 64] >> (bit % 64)) & 1 == 1;
+    clause!(is == if bit >= s && bit < e { v } else { was }, "set: exactly the bits of the range take the value");
+}
+
+/// `fill` and `count_zeros`.
+#[kani::proof]
+#[kani::unwind(10)]
+fn l1a_fill_count_zeros() {
+    let old: Rows = kani::any();
+    let b = bitfield_from(old);
+    clause!(b.count_zeros() == rows_zeros(&old), "count_zeros: number of zero bits");
+    let v: bool = kani::any();
+    b.fill(v);
+    let new = rows_of(&b);
+    let r: usize = kani::any();
+    kani::assume(r < ROWS);
+    clause!(new[r] == if v { u64::MAX } else { 0 }, "fill: every row takes the value");
+    clause!(b.count_zeros() == if v { 0 } else { Bitfield::LEN }, "fill: count_zeros is 0 or LEN");
+}
+
+/// Lemmas about the ghost quantity `zeros` = count_zeros (proved here once, used as facts by the
+/// lower-level contracts, which keep `zeros` as an opaque ghost number):
+///   Z1  flipping an all-`e` block changes zeros by exactly +-2^order
+///   Z2  zeros == LEN  <=>  every row is 0;  zeros == 0 <=> every row is all ones
+///   Z3  block all ones  => zeros <= LEN - 2^order;  block all zeros => zeros >= 2^order
+fn check_zeros_lemmas<const ORDER: usize>() {
+    let old: Rows = kani::any();
+    let new: Rows = kani::any();
+    let bit: usize = kani::any();
+    kani::assume(bit < Bitfield::LEN && bit % (1usize << ORDER) == 0);
+    let n = 1usize << ORDER;
+    let z = rows_zeros(&old);
+    if block_all(&old, bit, ORDER, true) {
+        clause!(z <= Bitfield::LEN - n, "Z3: an all-ones block bounds zeros from above");
+        if rows_with_block(&old, &new, bit, ORDER, false) {
+            clause!(rows_zeros(&new) == z + n, "Z1: clearing an all-ones block adds 2^order zeros");
+        }
+    }
+    if block_all(&old, bit, ORDER, false) {
+        clause!(z >= n, "Z3: an all-zero block bounds zeros from below");
+        if rows_with_block(&old, &new, bit, ORDER, true) {
+            clause!(rows_zeros(&new) == z - n, "Z1: setting an all-zero block removes 2^order zeros");
+        }
+    }
+    let mut all0 = true;
+    let mut all1 = true;
+    let mut r = 0;
+    while r < ROWS {
+        if old[r] != 0 {
+            all0 = false;
+        }
+        if old[r] != u64::MAX {
+            all1 = false;
+        }
+        r += 1;
+    }
+    clause!((z == Bitfield::LEN) == all0, "Z2: zeros == LEN iff every row is zero");
+    clause!((z == 0) == all1, "Z2: zeros == 0 iff every row is all ones");
+}
+macro_rules! zeros_harness {
+    ($name:ident, $o:expr) => {
+        #[kani::proof]
+        #[kani::unwind(10)]
+        fn $name() {
+            check_zeros_lemmas::<$o>();
+        }
+    };
+}
+zeros_harness!(l1a_zeros_lemmas_o0, 0);
+zeros_harness!(l1a_zeros_lemmas_o1, 1);
+zeros_harness!(l1a_zeros_lemmas_o2, 2);
+zeros_harness!(l1a_zeros_lemmas_o3, 3);
+zeros_harness!(l1a_zeros_lemmas_o4, 4);
+zeros_harness!(l1a_zeros_lemmas_o5, 5);
+zeros_harness!(l1a_zeros_lemmas_o6, 6);
+zeros_harness!(l1a_zeros_lemmas_o7, 7);
+zeros_harness!(l1a_zeros_lemmas_o8, 8);
+zeros_harness!(l1a_zeros_lemmas_o9, 9);
+
+// ---------------------------------------------------------------------------------------------
+// Verified stubs: the contracts above in executable form, installed at call sites in the L1b
+// obligations (`#[kani::stub]`), so that callers are checked against the contract, not the body.
+// `toggle`'s contract determines result and final state completely, so "havoc + assume(post)" is
+// the same as computing the specified state. `set_first_zeros` is nondeterministic in the block it
+// picks: any aligned all-zero block. Its Err postcondition (`no aligned free block exists`) is
+// universally quantified; it is instantiated at the caller's witness block (SFZ_WITNESS), which
+// over-approximates the callee (sound for proving the caller's postcondition).
+// ---------------------------------------------------------------------------------------------
+pub(crate) static mut SFZ_WITNESS: (usize, usize) = (0, 0); // (address of the witness bitfield, first bit)
+
+impl Bitfield {
+    pub(crate) fn toggle_contract(&self, i: FrameId, order: usize, expected: bool) -> Result<()> {
+        kani::assert(order <= Self::ORDER && i.0 % (1usize << order) == 0, "toggle precondition: aligned, order <= 9");
+        let b = blk(i.0, order);
+        let old = rows_of(self);
+        if blk_all(&old, &b, expected) {
+            let mut r = 0;
+            while r < ROWS {
+                let m = b.mask_in_row(r);
+                self.data[r].store(if expected { old[r] & !m } else { old[r] | m });
+                r += 1;
+            }
+            Ok(())
+        } else {
+            Err(Error::Memory)
+        }
+    }
+    pub(crate) fn set_first_zeros_contract(&self, _start_row: RowId, order: usize) -> Result<FrameId> {
+        kani::assert(order <= Self::ORDER, "set_first_zeros precondition: order <= 9");
+        let old = rows_of(self);
+        if kani::any() {
+            let p: usize = kani::any();
+            kani::assume(p < Self::LEN && p % (1usize << order) == 0);
+            let b = blk(p, order);
+            kani::assume(blk_all(&old, &b, false));
+            let mut r = 0;
+            while r < ROWS {
+                self.data[r].store(old[r] | b.mask_in_row(r));
+                r += 1;
+            }
+            Ok(FrameId(p))
+        } else {
+            let (addr, bit) = unsafe { SFZ_WITNESS };
+            if addr == self as *const Self as usize {
+                kani::assume(!blk_all(&old, &blk(bit, order), false));
+            }
+            Err(Error::Memory)
+        }
+    }
+}
